@@ -373,7 +373,7 @@ pub fn run_cases(rt: &tokio::runtime::Runtime, cases: &[Case1], r: &mut Report, 
             // again on its own with a generous deadline (the first deadline is short because every
             // dry-shard input has to wait for it; a loaded machine must not turn into an alarm)
             r.inc("hang_rechecks");
-            let again = rt.block_on(hybrid_world(c, passthrough(), Duration::from_secs(600), Duration::from_secs(10)));
+            let again = rt.block_on(hybrid_world(c, passthrough(), Duration::from_secs(240), Duration::from_secs(10)));
             verdict = check_outputs(c, &again);
         }
         if let Err(e) = verdict {
